@@ -267,6 +267,12 @@ class SchedulingSolver(BaseModelWithJson):
                     self.append_z3_assertion(work_amount_assertion)
 
         # process buffers
+        def _quantity(task, quantity):
+            # an optional task that is not scheduled does not change the buffer level
+            if task.optional:
+                return z3.If(task._scheduled, quantity, 0)
+            return quantity
+
         for buffer in self.problem.buffers:
             # first add all buffer assertions
             self.append_z3_assertion(buffer.get_z3_assertions())
@@ -321,7 +327,7 @@ class SchedulingSolver(BaseModelWithJson):
                         x,
                         z3.If(
                             x == t._start,
-                            f(x) == -buffer._unloading_tasks[t],
+                            f(x) == -_quantity(t, buffer._unloading_tasks[t]),
                             f(x) == 0,
                         ),
                     )
@@ -338,7 +344,9 @@ class SchedulingSolver(BaseModelWithJson):
                     asst = z3.ForAll(
                         x,
                         z3.If(
-                            x == t._end, f(x) == +buffer._loading_tasks[t], f(x) == 0
+                            x == t._end,
+                            f(x) == +_quantity(t, buffer._loading_tasks[t]),
+                            f(x) == 0,
                         ),
                     )
                     self.append_z3_assertion(asst)
@@ -374,13 +382,19 @@ class SchedulingSolver(BaseModelWithJson):
                     self.append_z3_assertion(
                         buffer_mapping
                         == z3.Store(
-                            buffer_mapping, t._start, -buffer._unloading_tasks[t]
+                            buffer_mapping,
+                            t._start,
+                            -_quantity(t, buffer._unloading_tasks[t]),
                         )
                     )
                 for t in buffer._loading_tasks:
                     self.append_z3_assertion(
                         buffer_mapping
-                        == z3.Store(buffer_mapping, t._end, +buffer._loading_tasks[t])
+                        == z3.Store(
+                            buffer_mapping,
+                            t._end,
+                            +_quantity(t, buffer._loading_tasks[t]),
+                        )
                     )
                 # and, for the other, the buffer level i+1 is the buffer level i +/- the buffer change
                 for i in range(len(buffer._buffer_levels) - 1):
